@@ -136,6 +136,12 @@ pub struct P2Opts {
     pub deps: bool,
     /// weights of 0 / 1 / 2 dependency projects
     pub dep_weights: [u32; 3],
+    /// per-mille of cases with 1-3 alias-only files (`alias module X = Mod;`):
+    /// they hold no module/package/interface, `sort_filelist` appends them
+    pub alias_per_mille: u32,
+    /// per-mille of cases where two modules in different files carry the same
+    /// kind of warning (equal message, different place)
+    pub twin_warning_per_mille: u32,
     /// per-mille of cases with the standard library included (slow: ~50 files)
     pub std_per_mille: u32,
     /// per-mille of cases where a known colliding shape is forced (if the
@@ -384,6 +390,19 @@ pub fn gen_p2(d: &mut Draw, o: &P2Opts) -> P2Project {
     if o.ensure_wildcard {
         ensure_wildcard(d, &mut root);
     }
+    if o.twin_warning_per_mille > 0 && d.below(1000) < o.twin_warning_per_mille {
+        let mods: Vec<ItemId> = root.modules().into_iter().filter(|m| placed(&root, *m).is_some()).collect();
+        if mods.len() >= 2 {
+            let a = mods[d.below_usize(mods.len())];
+            let b = mods[d.below_usize(mods.len())];
+            if a != b && root.file_of(a) != root.file_of(b) {
+                for m in [a, b] {
+                    let k = root.fresh();
+                    root.module_mut(m).inj.push(Inject::WarnShift(k));
+                }
+            }
+        }
+    }
     let unified_generics = o.unify_generics_per_mille > 0 && d.below(1000) < o.unify_generics_per_mille;
     if unified_generics {
         unify_generic_args(&mut root);
@@ -539,6 +558,37 @@ pub fn gen_p2(d: &mut Draw, o: &P2Opts) -> P2Project {
         let name = ["aa_user", "zz_user", "sub/user", "m_user"][d.weighted(&[2, 2, 1, 1])];
         let rel = norm_join(&dir, &format!("{name}{un}.veryl"));
         extra.push(mk_extra(rel, &format!("P2User{un}"), b));
+    }
+    if o.alias_per_mille > 0 && d.below(1000) < o.alias_per_mille {
+        let mods: Vec<ItemId> = root
+            .modules()
+            .into_iter()
+            .filter(|m| placed(&root, *m).is_some() && !root.module(*m).generic)
+            .collect();
+        let pkgs: Vec<ItemId> = root.packages(false).into_iter().filter(|q| placed(&root, *q).is_some()).collect();
+        for an in 0..d.usize_in(1, 3) {
+            let (kw, target) = if !pkgs.is_empty() && (mods.is_empty() || d.chance(1, 2)) {
+                ("package", pkgs[d.below_usize(pkgs.len())])
+            } else if !mods.is_empty() {
+                ("module", mods[d.below_usize(mods.len())])
+            } else {
+                break;
+            };
+            let dir = dirs[d.below_usize(dirs.len())].clone();
+            let stem = ["aa_alias", "zz_alias", "sub/alias"][d.weighted(&[1, 1, 1])];
+            let mut item_refs = BTreeSet::new();
+            item_refs.insert((Owner::Root, target));
+            extra.push(Extra {
+                rel: norm_join(&dir, &format!("{stem}{an}.veryl")),
+                text: format!("alias {kw} P2Alias{an} = {};\n", root.items[target].name),
+                item_refs,
+                link_refs: BTreeSet::new(),
+                std_refs: BTreeSet::new(),
+                wildcard: false,
+                clocked: false,
+                defines: vec![],
+            });
+        }
     }
     let mut std_user = false;
     if !root.cfg.exclude_std && d.chance(2, 3) {
